@@ -15,11 +15,13 @@ OUTSIDE = ["the processing-time budget (__time_exceeded) is pinned off", "graphs
            "not arbitrary graphs", "depth is counted with the frame's own locals at depth 1"]
 
 
-def _snapshot(f_locals, mv, ms, mc, md, watches=(), event="line", arg=None):
+def _snapshot(f_locals, mv, ms, mc, md, watches=(), event="line", arg=None, log_msg=None):
     from deep.api.tracepoint.trigger import LocationAction, LineLocation, Trigger, Location
     w = World()
     cfg = {"fire_count": -1, "fire_period": 0, "watches": list(watches), "MAX_VARIABLES": mv, "MAX_STRING_LENGTH": ms,
            "MAX_COLLECTION_SIZE": mc, "MAX_VAR_DEPTH": md}
+    if log_msg is not None:
+        cfg["log_msg"] = log_msg
     act = LocationAction("tp1", None, cfg, LocationAction.ActionType.Snapshot)
     w.install([Trigger(LineLocation("f.py", 7, Location.Position.START), [act])])
     w.event(FakeFrame("/app/f.py", "fn", 7, f_locals), event, arg)
@@ -132,21 +134,25 @@ def truncate(n: int, m: int) -> str:
     return ""
 
 
-WATCHES = ["big", "[[1, 2, 3], 'abcdefgh', [4, [5, [6, [7, [8]]]]]]", "'x' * 8"]
+WATCHES = ["big", "[[1, 2, 3], 'abcdefgh', [4, [5, [6, [7]]]]]", "'x' * 8"]
 
 
 def watch_limits(wi: int, kind: int, mv: int, ms: int, mc: int, md: int) -> str:
     """
-    Watch results land in the same snapshot and obey the same four limits (captured values: see C15).
-    PRE: 0 <= wi <= 2 and kind == 0
-    PRE: mv >= 0 and 0 <= ms <= 8 and mc >= 0 and md >= 1
+    Watch results and log-field values land in the same snapshot and obey the same four limits.
+    PRE: 0 <= wi <= 2 and 0 <= kind <= 1
+    PRE: mv >= 0 and ms in (2, 100) and mc >= 0 and md >= 1
+    PRE: kind == 0 or wi == 0
     POST: _ == ""
     """
     world.begin_path()
-    wi, kind = world.realize(wi), world.realize(kind)
-    big = [[i, "s" * 8, [i, [i, [i, [i]]]]] for i in range(4)]
+    wi, kind, ms = world.realize(wi), world.realize(kind), world.realize(ms)
+    big = [[i, "s" * 8, [i, [i, [i]]]] for i in range(2)]
     f_locals = {"big": big, "z": 1}
-    snaps = _snapshot(f_locals, mv, ms, mc, md, watches=[WATCHES[wi]])
+    if kind == 0:
+        snaps = _snapshot(f_locals, mv, ms, mc, md, watches=[WATCHES[wi]])
+    else:       # the same value reached through a log field of a collecting tracepoint
+        snaps = _snapshot({"z": 1, "holder": [big]}, mv, ms, mc, md, log_msg="v={holder[0]}")
     world.reached()
     if len(snaps) != 1:
         return "C05:watch:no-snapshot"
@@ -228,7 +234,13 @@ def _mut_depth_off():
     vsp.process_child_nodes = process_child_nodes
 
 
-MUTANTS = {"dfs_pop": _mut_dfs_pop, "count_plus2": _mut_count_plus2, "trunc_flag_ge": _mut_trunc_flag_ge,
+def _mut_watch_default_limits():
+    from deep.processor.context.action_context import ActionContext
+    from deep.processor.variable_set_processor import VariableProcessorConfig
+    ActionContext.variable_config = lambda self: VariableProcessorConfig()
+
+
+MUTANTS = {"watch_default_limits": _mut_watch_default_limits, "dfs_pop": _mut_dfs_pop, "count_plus2": _mut_count_plus2, "trunc_flag_ge": _mut_trunc_flag_ge,
            "coll_cap_off_by_one": _mut_coll_cap_off_by_one, "depth_off": _mut_depth_off}
 
 _MD = ["md == 1", "md == 2", "md == 3", "md >= 4"]
@@ -248,6 +260,7 @@ CONDITIONS = [
          bounds="3 templates with strings x size 1,3 x max_string_length 0..8 x UNBOUNDED symbolic max_variables"),
     dict(fn="truncate", cubes=["n == %d" % n for n in range(9)], twins=["reach", "mutant:trunc_flag_ge@n == 3"],
          bounds="string length 0..8 x limit 0..8"),
-    dict(fn="watch_limits", cubes=["wi == %d and kind == 0" % w for w in range(3)], twins=[],
-         bounds="3 watch expressions (existing big local, fresh nested structure, long string) under symbolic limits"),
+    dict(fn="watch_limits", cubes=["wi == %d and kind == 0 and %s" % (w, m) for w in range(3) for m in _MD] + ["wi == 0 and kind == 1 and %s" % m for m in _MD],
+         twins=["reach", "mutant:watch_default_limits@wi == 0 and kind == 0 and md >= 4"],
+         bounds="3 watch expressions (existing big local, fresh nested structure, long string) and a log field, under SYMBOLIC limits"),
 ]
